@@ -455,18 +455,33 @@ def check_document(root, text, expect_divs=None, expect_ps=None):
         ps = list(dv.iter(TT + "p"))
         if any(p.get("begin") is None or p.get("end") is None for p in ps):
             return {"kind": "p-without-begin-end", "what": "a <p> lacks begin/end"}
-        if expect_ps is not None and len(ps) != expect_ps[i]:
-            return {"kind": "p-per-caption", "what": "div %d has %d <p>, expected %d" % (i, len(ps), expect_ps[i])}
+        if expect_ps is not None:
+            if len(ps) != len(expect_ps[i]):
+                return {"kind": "p-per-caption", "what": "div %d has %d <p>, expected %d (one per caption / per run of "
+                                                        "captions with equal start and end)" % (i, len(ps), len(expect_ps[i]))}
+            got = [(stamp_us(p.get("begin")), stamp_us(p.get("end"))) for p in ps]
+            want = [(int(a) // 1000 * 1000, int(b) // 1000 * 1000) for a, b in expect_ps[i]]
+            if got != want:
+                return {"kind": "p-begin-end", "what": "div %d: <p> begin/end %r, captions / runs have %r" % (i, got, want)}
     return None
 
 
 def runs(caps):
-    n, last = 0, None
+    """the runs of concurrent captions: maximal groups of ADJACENT captions with equal start AND equal end,
+    computed from the input caption list alone (never with pycaption's merge function) -> [(start, end), ...]"""
+    out = []
     for c in caps:
-        if (c.start, c.end) != last:
-            n += 1
-        last = (c.start, c.end)
-    return n
+        if not out or out[-1] != (c.start, c.end):
+            out.append((c.start, c.end))
+    return out
+
+
+def stamp_us(stamp):
+    m = re.fullmatch(r"(\d+):(\d\d):(\d\d)\.(\d{3})", stamp or "")
+    if not m:
+        return None
+    h, mi, sec, ms = map(int, m.groups())
+    return ((h * 60 + mi) * 60 + sec) * 1000000 + ms * 1000
 
 
 def reader_sets(ctx):
@@ -514,8 +529,8 @@ def api_set(ctx):
         styles[name] = rand_style(rng, allow_empty=False) if rng.random() < 0.85 else {}
     for lang in rng.sample(LANGS, rng.choice([1, 1, 2, 3])):
         caps = []
-        t = 0
-        for ci in range(rng.randint(1, 4)):
+        t, e = 0, 0
+        for ci in range(rng.randint(1, 6)):
             nodes = rand_nodes(rng)
             lays = [rng.choice(pool)() if rng.random() < 0.2 else None for _ in nodes]
             st = None
@@ -523,13 +538,20 @@ def api_set(ctx):
                 st = rand_style(rng, allow_empty=False)
                 if styles and rng.random() < 0.6:
                     st["class"] = rng.choice(list(styles) + ["missing"])
-            same = caps and rng.random() < 0.25
-            if not same:
-                t += 2000000
+            r = rng.random() if caps else 1.0
+            if r < 0.25:
+                pass                                    # concurrent: same start AND end as the previous caption
+            elif r < 0.40:
+                e = e + rng.choice([1000000, 2000000, -500000])     # equal start, different end (speaker label)
+            elif r < 0.50:
+                t = t + rng.choice([250000, 500000])    # equal end, later start
+            else:
+                t = max(t, e) + 2000000 if caps else 2000000
+                e = t + rng.choice([1000000, 3000000])
             kw = {"layout_info": rng.choice(pool)()}
             if st is not None:
                 kw["style"] = st
-            caps.append(Caption(t, t + 1000000, to_caption_nodes(nodes, lays), **kw))
+            caps.append(Caption(t, e, to_caption_nodes(nodes, lays), **kw))
         d[lang] = CaptionList(caps, layout_info=rng.choice(pool)())
     return CaptionSet(d, styles=styles, layout_info=rng.choice(pool)())
 
@@ -537,6 +559,15 @@ def api_set(ctx):
 def stream_documents(ctx, acc):
     rng = ctx.rng
     sources = [("api", lambda: api_set(ctx)) for _ in range(ctx.n(150, 3000))] + reader_sets(ctx)
+    # fixed shapes for "one p per RUN": label 1-5 s next to a line 1-3 s; equal end, different start; runs of 1-4
+    def shape(spans):
+        return lambda: CaptionSet({"en-US": CaptionList([Caption(a, b, [CaptionNode.create_text("c%d" % i)])
+                                                          for i, (a, b) in enumerate(spans)])})
+    S = 1000000
+    for spans in ([(1 * S, 5 * S), (1 * S, 3 * S)], [(1 * S, 3 * S), (1 * S, 5 * S), (6 * S, 7 * S)],
+                  [(1 * S, 5 * S), (2 * S, 5 * S)], [(1 * S, 2 * S)] * 4 + [(1 * S, 3 * S)] + [(4 * S, 5 * S)] * 2,
+                  [(1 * S, 2 * S), (1 * S, 2 * S), (1 * S, 2 * S), (3 * S, 4 * S), (3 * S, 5 * S), (3 * S, 5 * S)]):
+        sources.append(("api-runs", shape(spans)))
     # the known shape: the legacy writer asked for a language without captions
     sources.append(("api-empty-language", lambda: CaptionSet({"fr": CaptionList([])})))
     for src, mk in sources:
@@ -573,7 +604,7 @@ def stream_documents(ctx, acc):
             else:
                 written = langs
             if wname == "main":
-                ps = [len(cs.get_captions(l)) for l in written]
+                ps = [[(c.start, c.end) for c in cs.get_captions(l)] for l in written]
             else:
                 ps = [runs(cs.get_captions(l)) for l in written]
             try:
@@ -584,12 +615,19 @@ def stream_documents(ctx, acc):
                 continue
             v = check_document(root, out.v, written, ps)
             if v:
-                if wname == "legacy" and sum(ps) == 0:
+                if wname == "legacy" and sum(len(x) for x in ps) == 0:
                     v["shape"] = "legacy-writer-no-caption-written"
                 acc.res["violations"].append(dict(v, input=inp, document=out.v[:4000], replay="none"))
             else:
                 acc.res["nontrivial"].add(("D", src, wname, out.v))
                 acc.count("D_ok_" + src)
+                if wname != "main":
+                    for l in written:
+                        cl = cs.get_captions(l)
+                        pairs = list(zip(cl, cl[1:]))
+                        acc.count("D_adjacent_same_start_and_end", sum(1 for a, b in pairs if (a.start, a.end) == (b.start, b.end)))
+                        acc.count("D_adjacent_same_start_different_end", sum(1 for a, b in pairs if a.start == b.start and a.end != b.end))
+                        acc.count("D_adjacent_same_end_different_start", sum(1 for a, b in pairs if a.start != b.start and a.end == b.end))
 
 
 def run(ctx):
